@@ -247,14 +247,7 @@ def attach_module_rules(repo: Repo, rep, P: str):
         return
     rep.count("attach_module_paths", len(paths), 6)
     # module_index == list.index on self.modules
-    mi = repo.own_method(proj, "module_index")
-    mi_ret = [norm(s.value) for s in mi.body if isinstance(s, ast.Return) and s.value is not None]
-    mi_param = [a.arg for a in mi.args.args if a.arg != "self"]
-    if mi_ret == [f"self.modules.index({mi_param[0]})"] if mi_param else False:
-        rep.ok(f"{P}.R2", f"{rel}:Project.module_index", mi_ret[0], "lowest position holding the argument")
-    else:
-        rep.violation(f"{P}.R2", f"{rel}:Project.module_index", "; ".join(mi_ret),
-                      "module_index must be the lowest position of the argument in self.modules", f"{rel}:{mi.lineno}")
+    module_index_rule(repo, rep, P, "R2")
     seen = set()
     n_insert_paths = 0
     for path in paths:
@@ -340,6 +333,24 @@ def attach_module_rules(repo: Repo, rep, P: str):
     else:
         rep.violation(f"{P}.R3", construct, "raise ModuleOwnershipError(...)", "foreign modules are no longer refused",
                       f"{rel}:{fn.lineno}")
+
+
+def module_index_rule(repo: Repo, rep, P: str, rule: str):
+    """Project.module_index(m) is self.modules.index(m) on every path (position look-up, ValueError for strangers)."""
+    proj = repo.cls("Project", module="rv.project")
+    rel = proj.file.rel
+    mi = repo.own_method(proj, "module_index")
+    mi_ret = [norm(s.value) for s in walk_no_nested(mi) if isinstance(s, ast.Return) and s.value is not None]
+    mi_param = [a.arg for a in mi.args.args if a.arg != "self"]
+    want = f"self.modules.index({mi_param[0]})" if mi_param else None
+    if want is not None and mi_ret and all(r == want for r in mi_ret):
+        rep.ok(f"{P}.{rule}", f"{rel}:Project.module_index", want, "lowest position holding the argument; ValueError for objects not in this project")
+    else:
+        bad = [r for r in mi_ret if r != want]
+        rep.violation(f"{P}.{rule}", f"{rel}:Project.module_index", "; ".join(f"return {r}" for r in mi_ret),
+                      f"module_index must return the position of its argument in THIS project's module list on every path "
+                      f"(`return {bad[0] if bad else '?'}` does not look the object up: a module of another project, or None, is "
+                      "given an index instead of raising ValueError)", f"{rel}:{mi.lineno}")
 
 
 def _dominating_conditions(g: CFG, dom, nid: int) -> List[Tuple[str, str]]:
